@@ -45,8 +45,12 @@ inline double next_uniform()
 }
 } // namespace vk
 
+// -DKNN_DEFAULT_VANTAGE: leave the library's own generators in place (the VP-tree then draws its vantage points from
+// VantagePointTree::next_vantage_fraction's own LCG); such a build is judged by the oracle only
+#ifndef KNN_DEFAULT_VANTAGE
 #define CUSTOM_UNIFORM_RANDOM_FUNCTION vk::next_uniform()
 #define CUSTOM_UNIFORM_RANDOM_INDEX_FUNCTION ((int)(vk::next_uniform() * 1048576.0))
+#endif
 
 #include <tapkee/defines.hpp>
 #include <tapkee/neighbors/neighbors.hpp>
